@@ -240,11 +240,16 @@ def base_cases(tier):
         out.append(c)
     for topo in c10.TOPOS:
         npipes = len(c10.TOPOS[topo]["pipes"])
-        tdims = [((d[0], [2, 1, 3]) if d[0].startswith("sec") else d) for d in c10.dims(topo) if d[0] not in ("numba", "ambient", "mode")]
+        tdims = [((d[0], [2, 1, 3]) if d[0].startswith("sec") else d) for d in c10.dims(topo)
+                 if d[0] not in ("numba", "ambient", "mode", "fluid")]
         tdims += [("oos%d" % i, [False, True]) for i in range(npipes)]
-        for pt, dev in enum.deviations(tdims + [("start", ["consistent", "mismatch"])], 1):
-            pt = dict(pt, mode="sequential", numba=False, ambient=293.15)
-            out.append({"scope": "T", "topo": topo, "point": pt})
+        # the deviation bound applies per (fluid, mode): temperatures feed back into the hydraulics only in bidirectional mode
+        for fluid, mode in (("water", "sequential"), ("lgas", "sequential"), ("water", "bidirectional"), ("lgas", "bidirectional")):
+            if mode == "bidirectional" and tier == "quick" and topo not in ("line", "tee21", "delta", "deadend"):
+                continue
+            for pt, dev in enum.deviations(tdims + [("start", ["consistent", "mismatch"])], 1):
+                pt = dict(pt, mode=mode, numba=False, ambient=293.15, fluid=fluid)
+                out.append({"scope": "T", "topo": topo, "point": pt})
     return out
 
 
@@ -254,7 +259,7 @@ def base_spec(c):
         opts["use_numba"] = False
         return sp, opts
     sp, opts = c10.topo_spec(c)
-    sp["_mode"] = "sequential"
+    sp["_mode"] = c["point"].get("mode", "sequential")
     for o in sp["ops"]:
         if o["op"] == "pipe" and c["point"].get("oos" + o["id"][1:], False):
             o["in_service"] = False
